@@ -79,7 +79,7 @@ type Msg struct {
 
 type Fault struct {
 	Job   int    // n-th job started (0-based, in start order)
-	Where string // before | mid | after
+	Where string // before | mid | after | abort (no retry: the request ends) | exec (real worker only)
 }
 
 type Opts struct {
@@ -245,6 +245,13 @@ func (w *sysWorker) Work(ctx context.Context, unit stage.Unit, startBlock uint64
 				continue
 			}
 			failAt := int64(-1)
+			if where == "abort" { // the request is cancelled while this job is half-way: its block stream breaks, nothing is retried
+				err := runTier2(ctx, env, request, int64(request.StartBlock()+(request.StopBlock()-request.StartBlock())/2))
+				if err == nil {
+					err = fmt.Errorf("aborted")
+				}
+				return work.MsgJobFailed{Unit: unit, Error: fmt.Errorf("request aborted: %w", err)}
+			}
 			if where == "mid" {
 				failAt = int64(request.StartBlock() + (request.StopBlock()-request.StartBlock())/2)
 			}
